@@ -172,6 +172,14 @@ func (p *Project) Tree() scratch.Tree {
 				b.WriteString(c.pre() + "converter\nconst Marked" + c.Name + " = 1\n\n")
 			case "compile":
 				b.WriteString("var _ Undefined" + c.Name + "\n\n")
+			case "pkgconflict":
+				// three converters share one output file: the first names no package, the other two demand DIFFERENT names
+				shared := []string{"output:file ../shared/conflict.go", "output:package " + p.Module + "/shared"}
+				lines = append(lines, shared...)
+				for _, x := range [][2]string{{"Xeta", "foo"}, {"Yamma", "bar"}} {
+					b.WriteString(c.pre() + "converter\n" + c.pre() + shared[0] + "\n" + c.pre() + shared[1] + ":" + x[1] + "\n")
+					b.WriteString("type " + c.Name + x[0] + " interface {\n\tConvert" + sig + "\n}\n\n")
+				}
 			}
 			if c.Vars {
 				b.WriteString(c.pre() + "variables\n")
